@@ -52,6 +52,11 @@ pub const KINDS: &[&str] = &[
     "key: value",
     "x",
     // non-ASCII records whose UTF-16 code units contain the byte 0x0A, also straddling two units (xx00 0Ayy)
+    // Unicode whitespace: indentation of a comment, trailing whitespace of a header, whitespace-only line
+    "\u{3000}// c",
+    "\u{a0}\t//c",
+    "[Metadata]\u{3000}",
+    "\u{2009}\u{a0}",
     "TitleUnicode:\u{4e00}\u{0a15}\u{0a3e}",
     "Tags: \u{4e0a} \u{010a}\u{0a00} end",
 ];
@@ -186,6 +191,11 @@ const MORE: &[&str] = &[
     "100,100,3000,6,0,B|200:200|300:100,2,150,2|0|0,0:0|0:0|0:0,0:0:0:0:",
     "256,192,4000,12,0,5000",
     "garbage,,",
+    "\u{b}// vertical tab comment",
+    "\u{85}//c",
+    "Title: t\u{3000}",
+    "[HitObjects]\u{a0}",
+    "osu file format v9\u{3000}",
     "ArtistUnicode:\u{0100}\u{0a05}\u{ff00}\u{0a0a}",
     "Source:\u{1F3B5}\u{d7ff}\u{e000}",
     "Mode: x",
